@@ -31,8 +31,9 @@ def run(tier):
         cfgs, beh = model_behaviours(c, tier, cfgsel=[4, 6, 9, 10, 11, 12, 17, 18, 19, 27])
     else:
         # the configurations added later keep two uses per line in the thorough tier (budget), like configuration 16 in C03
-        cfgs, beh = model_behaviours(c, tier, cfgsel=[4, 10], maxuses=3)
-        cfgs2, beh2 = model_behaviours(c, tier, cfgsel=[6, 9, 11, 12, 17, 18, 19, 27], maxuses=2)
+        # (4 with three uses: 12.5 million states, 2.4 million behaviours; 10 with three uses would be 24 million states)
+        cfgs, beh = model_behaviours(c, tier, cfgsel=[4], maxuses=3)
+        cfgs2, beh2 = model_behaviours(c, tier, cfgsel=[6, 9, 10, 11, 12, 17, 18, 19, 27], maxuses=2)
         beh += beh2
     script = os.path.join(c.wd, "replay.ndjson")
     n = behaviours_script(cfgs, beh, script)
